@@ -609,7 +609,7 @@ UNITS['barrier_verus'] = dict(name='barrier_verus', engine='verus', module='veru
     obligations=['C01.V-BARRIER-ZERO', 'C18.V-FLIP-ONCE', 'C18.V-BARRIER-NO-PANIC'])
 FB = 'half_lock.rs: HalfLock::write_barrier (extracted text, Verus, any number of waiting passes / any answers of the reader counters): '
 obl('C01.V-BARRIER-ZERO', FB + 'ensures + loop invariant', 'the barrier returns only after EACH of the two reader slots was observed at zero by a load made during this barrier - for an unbounded number of passes in which readers keep a slot non-zero (the Kani run bounds them to 3)', also=['C18'])
-obl('C18.V-FLIP-ONCE', FB + 'ensures + loop invariant', 'the generation is advanced exactly once per barrier, SeqCst, by an odd amount, after at most the initial sampling pass and never inside the waiting loop', also=['C01'])
+obl('C18.V-FLIP-ONCE', FB + 'ensures + loop invariant', 'the generation is advanced exactly once per barrier, by an odd amount (new readers are sent to the other slot), before the waiting loop and never inside it (loop invariant flips == 1)', also=['C01'])
 obl('C18.V-BARRIER-NO-PANIC', FB + 'verifier-generated checks', 'no arithmetic / index check on a line of the real function fails (`iter % YIELD_EVERY` with the extracted constant, wrapping counter)')
 for _p in ('C01', 'C18'):
     PROPS[_p]['units'] = PROPS[_p]['units'] + ['barrier_verus']
